@@ -212,6 +212,31 @@ pub open spec fn timing_class_ok(t: synast::TimingLiteral, g: asg::Literal) -> b
         _ => true,
     }
 }
+/// C08: the type of a typed expression is the type of its construct: a literal has the (const) type of its class, a cast its
+/// target type, a measurement the bit shape of its operand, and both operands of an arithmetic expression have the
+/// expression's type (directly or through the explicit casts new_texpr_with_cast inserts)
+pub open spec fn typed_ok(r: asg::TExpr) -> bool {
+    match r.expression {
+        asg::Expr::Literal(l) => match l {
+            asg::Literal::Bool(_) => r.ty == Type::Bool(IsConst::True),
+            asg::Literal::Int(_) => r.ty is Int && types::sp_is_const(r.ty),
+            asg::Literal::Float(_) => r.ty is Float && types::sp_is_const(r.ty),
+            asg::Literal::ImaginaryFloat(_) => r.ty is Complex && types::sp_is_const(r.ty),
+            asg::Literal::ImaginaryInt(_) => (!asg::co_imag_int() ==> r.ty is Complex) && types::sp_is_const(r.ty),
+            asg::Literal::BitString(_) => r.ty is BitArray && types::sp_is_const(r.ty),
+            asg::Literal::TimingIntLiteral(_) => r.ty == Type::Duration(IsConst::True),
+            asg::Literal::TimingFloatLiteral(_) => r.ty == Type::Duration(IsConst::True),
+            _ => true,
+        },
+        asg::Expr::Cast(c) => r.ty == c.typ,
+        asg::Expr::MeasureExpression(m) => {
+            &&& ((m.operand.ty is Qubit || m.operand.ty is HardwareQubit) ==> r.ty == Type::Bit(IsConst::False))
+            &&& (m.operand.ty is QubitArray ==> r.ty == Type::BitArray(m.operand.ty->QubitArray_0, IsConst::False))
+        },
+        asg::Expr::BinaryExpr(b) => b.op is ArithOp ==> b.left.ty == r.ty && b.right.ty == r.ty,
+        _ => true,
+    }
+}
 /// C06: gate modifiers keep their kind and their order
 pub open spec fn mod_same(m: synast::Modifier, g: asg::GateModifier) -> bool {
     match m {
